@@ -1,5 +1,5 @@
 """Thorough-tier extras (DESIGN.md section 8/9): vacuity probes, solver-seed stability, larger replay searches."""
-import os, sys, json, time
+import os, sys, json, time, hashlib
 V = os.path.dirname(os.path.dirname(os.path.abspath(__file__)))
 sys.path.insert(0, os.path.join(V, 'tools'))
 import runner, probe as probemod, replaylib
@@ -7,9 +7,18 @@ import runner, probe as probemod, replaylib
 def run(pid, cfg, results, seed):
     extra = {}; lines = []; rc = 0
     # 1. reachability probe behind every precondition: `assert(false)` at body start must fail
+    # per-unit results are cached on the generated text (like the quick tier), so properties sharing a unit pay once
+    cdir = os.path.join(runner.BUILD_ROOT, 'cache'); os.makedirs(cdir, exist_ok=True)
+    def cached(kind, u, fn):
+        cp = os.path.join(cdir, 'thorough-%s-%s-%s-%d.json' % (kind, u, results[u].get('key', 'x'), seed))
+        if os.path.exists(cp) and not os.environ.get('VERIF_NOCACHE'):
+            return json.load(open(cp))
+        v = fn()
+        if not (isinstance(v, dict) and v.get('error')): json.dump(v, open(cp, 'w'))
+        return v
     pr = {}
     for u in results:
-        r = probemod.probe(u, os.environ.get('VERIF_REPO'))
+        r = cached('probe', u, lambda: probemod.probe(u, os.environ.get('VERIF_REPO')))
         pr[u] = r
         if r.get('error') or r.get('vacuous'):
             rc = 2; lines.append('UNDECIDED: vacuity probe: unit %s: %s' % (u, r))
@@ -18,13 +27,15 @@ def run(pid, cfg, results, seed):
     stab = {}
     for u, r in results.items():
         path = r['meta']['path']
-        st = []
-        for sd in (11 + seed, 1009 + seed):
-            t0 = time.time()
-            rr = runner.run_verus(path, rlimit=160, seed=sd)
-            cl = runner.classify(r['meta'], rr, path)
-            st.append(dict(seed=sd, wall_s=round(time.time() - t0, 1), failed=sorted(set(cl['failed_clauses']) | set(cl['failed_lemmas']) | set(cl['body_fail'])), rlimit=len(cl['rlimit'])))
-        stab[u] = st
+        def stab_run(r=r, path=path):
+            st = []
+            for sd in (11 + seed, 1009 + seed):
+                t0 = time.time()
+                rr = runner.run_verus(path, rlimit=160, seed=sd)
+                cl = runner.classify(r['meta'], rr, path)
+                st.append(dict(seed=sd, wall_s=round(time.time() - t0, 1), failed=sorted(set(cl['failed_clauses']) | set(cl['failed_lemmas']) | set(cl['body_fail'])), rlimit=len(cl['rlimit'])))
+            return st
+        stab[u] = cached('stab', u, stab_run)
     extra['stability'] = stab
     base_failed = set()
     for u, r in results.items():
@@ -32,7 +43,15 @@ def run(pid, cfg, results, seed):
     unstable = sorted(set(x for u in stab for s in stab[u] for x in s['failed']) - base_failed)
     extra['unstable_under_other_seeds'] = unstable
     # 3. A3: shim arithmetic contracts against the real libraries (testing an assumption, not proving it)
-    r = replaylib.search('shim_arith', seed + 3, 300000)
+    def arith():
+        r = replaylib.search('shim_arith', seed + 3, 300000)
+        return dict(tries=r.get('tries'), found=bool(r.get('found')), input=r.get('input'), failed=r.get('failed'), error=r.get('error'))
+    tag = hashlib.sha256(open(os.path.join(V, 'replay', 'src', 'd_misc.rs')).read().encode()).hexdigest()[:10]
+    cp = os.path.join(cdir, 'thorough-arith-%s-%s-%d.json' % (tag, 'main' if not os.environ.get('VERIF_REPO') else hashlib.sha256(os.path.realpath(os.environ['VERIF_REPO']).encode()).hexdigest()[:10], seed))
+    if os.path.exists(cp) and not os.environ.get('VERIF_NOCACHE') and not os.environ.get('VERIF_REPO'): r = json.load(open(cp))
+    else:
+        r = arith()
+        if not r.get('error') and not os.environ.get('VERIF_REPO'): json.dump(r, open(cp, 'w'))
     extra['shim_arith_conformance'] = dict(tries=r.get('tries'), disagreement=r.get('input') if r.get('found') else None, failed=r.get('failed'))
     if r.get('found'):
         rc = 2; lines.append('UNDECIDED: shim arithmetic contract disagrees with the library: %s %s' % (r.get('failed'), r.get('input')))
